@@ -107,6 +107,12 @@ def run(case):
             idx = w.crop(f, mode=m)
             assert [int(x) for x in idx] == list(range(int(i), int(j)))
             out.append([int(i), int(j)])
+            # with `fixed` the number of frames is samples(fixed, mode), whatever the focus, in both output forms
+            for fx in (fl(case["dur"]), 10 * fl(case["step"]), 1.0, 0.5, 1.5, 0.06, fl(case["dur"]) + 3 * fl(case["step"])):
+                (fi, fj), = w.crop(f, mode=m, fixed=fx, return_ranges=True)
+                want = w.samples(fx, mode=m)
+                assert fj - fi == want == len(w.crop(f, mode=m, fixed=fx)), \
+                    f"crop(fixed={fx!r}, mode={m}) has {fj - fi} frames, samples() says {want}"
         return {"obs": out}
     tb = TB(case["regime"])
     tb.enter()
